@@ -311,7 +311,7 @@ Section Conform.
   Definition unpublished (o n : nat) : Prop := forall r, pub L o = Some r -> n < r.
 
   (* Every access of the execution is an instance of a table access of a row of the
-     thread's role which the checker accepts without resorting to an exception, and:
+     thread's role that is not one of the listed exceptions, and:
      - either the accessing thread is the creator and the object is not yet published
        (construction), which is all an `owned` table access may be;
      - or the access happens-after the publication of the object (a goroutine can
@@ -322,7 +322,7 @@ Section Conform.
   Definition access_conforms (n th o : nat) (f : string) (k : akind) : Prop :=
     exists rw a,
       In rw t /\ In a (r_acc rw) /\ r_role rw = trole L th /\ a_loc a = f /\ a_kind a = k /\
-      access_ok xs ws (trole L th) a = true /\ excepted xs (trole L th) a = false /\
+      excepted xs (trole L th) a = false /\
       ((th = creator L o /\ unpublished o n) \/
        (a_owned a = false /\
         (exists r, pub L o = Some r /\ hb cloc ex r n) /\
